@@ -94,7 +94,7 @@ Definition is_torn (last : bool) (off : N) (data : bytes) : bool :=
   last && torn_chunks (S (length data)) (off + 8) data.
 
 Inductive derr :=
-| DSizeLimit      (* "wal: max entry size limit exceeded" *)
+| DSizeLimit      (* "wal: max entry size limit exceeded" as a fatal error: no longer produced (fix 951f2b4) *)
 | DUnmarshal      (* protobuf error other than io.ErrUnexpectedEOF *)
 | DRecCrc         (* walpb.ErrCRCMismatch from rec.Validate in decodeRecord *)
 | DChainCrc.      (* wal.ErrCRCMismatch: a crcType record does not continue the chain *)
@@ -121,8 +121,10 @@ Definition decode_one (last : bool) (size off crc : N) (cur : bytes) : dres :=
       if l =? 0 then DStop FEnd
       else
         let '(recB, padB) := decode_frame_size l in
-        (* maxEntryLimit := size - off - padBytes; if recBytes > maxEntryLimit -> error *)
-        if size <? recB + off + padB then DStop (FErr DSizeLimit)
+        (* maxEntryLimit := size - off - padBytes; if recBytes > maxEntryLimit -> an error that
+           wraps io.ErrUnexpectedEOF (the record runs past the end of the file: a partially
+           written tail; fix 951f2b4 — before it this was a fatal, unrepairable error) *)
+        if size <? recB + off + padB then DStop FUnexp
         else
           let data := firstn (N.to_nat (recB + padB)) (skipn 8 cur) in
           if blen data <? recB + padB then DStop FUnexp   (* io.ReadFull falls short *)
